@@ -11,12 +11,27 @@ namespace Ldp
 
 open Base
 
-/-- terms of https://www.w3.org/2018/credentials/v1 that the generator uses plus the terms of the custom context -/
-def definedTerms : List String :=
-  ["@context", "id", "type", "credentialSubject", "issuer", "issuanceDate", "expirationDate", "proof",
-   "name", "nick", "score", "tags", "degree", "college", "level", "knows", "since", "extra", "homepage"]
+/-- terms of https://www.w3.org/2018/credentials/v1 that the generator uses -/
+def baseTerms : List String :=
+  ["@context", "id", "type", "credentialSubject", "issuer", "issuanceDate", "expirationDate", "proof"]
 
+/-- terms of the custom context https://verif.example/ctx/v1 -/
+def customTerms : List String :=
+  ["name", "nick", "score", "tags", "degree", "college", "level", "knows", "since", "extra", "homepage"]
+
+def definedTerms : List String := baseTerms ++ customTerms
+
+/-- all terms (custom context active) -/
 def defined (k : String) : Bool := definedTerms.contains k
+
+/-- only the base context is active -/
+def definedBase (k : String) : Bool := baseTerms.contains k
+
+/-- the active contexts decide what is a term: the custom terms exist only when the custom context is listed -/
+def definedFor (doc : J) : String → Bool :=
+  match doc.get? "@context" with
+  | some (.arr l) => if l.any (fun c => match c with | .str u => u == "https://verif.example/ctx/v1" | _ => false) then defined else definedBase
+  | _ => definedBase
 
 structure Claim where
   node : String
@@ -40,25 +55,25 @@ def nodeName (path : String) (kvs : List (String × J)) : String :=
   | _ => "_:" ++ path
 
 /-- statements of a value `v` of term `k` under node `n`; `fuel` bounds the depth -/
-def claimsOf : Nat → String → String → String → J → List Claim
+def claimsOf (d : String → Bool) : Nat → String → String → String → J → List Claim
   | 0, _, _, _, _ => []
   | fuel + 1, n, path, k, v =>
     match v with
-    | .arr l => l.zipIdx.flatMap fun (x, i) => claimsOf fuel n (path ++ "#" ++ toString i) k x   -- blank nodes of an array are distinct
+    | .arr l => l.zipIdx.flatMap fun (x, i) => claimsOf d fuel n (path ++ "#" ++ toString i) k x   -- blank nodes of an array are distinct
     | .obj kvs =>
       let p := path ++ "/" ++ k
       let m := nodeName p kvs
       ⟨n, k, m⟩ :: kvs.flatMap fun (k', v') =>
-        if k' == "id" || k' == "@context" || !defined k' then [] else claimsOf fuel m p k' v'
+        if k' == "id" || k' == "@context" || !d k' then [] else claimsOf d fuel m p k' v'
     | x => [⟨n, k, scalarR x⟩]
 
 /-- the statements of a credential (its `proof` member is not part of them) -/
-def docClaims (j : J) : List Claim :=
+def docClaims (d : String → Bool) (j : J) : List Claim :=
   match j with
   | .obj kvs =>
     let root := nodeName "" kvs
     kvs.flatMap fun (k, v) =>
-      if k == "id" || k == "@context" || k == "proof" || !defined k then [] else claimsOf 16 root "" k v
+      if k == "id" || k == "@context" || k == "proof" || !d k then [] else claimsOf d 16 root "" k v
   | _ => []
 
 def sameSet (a b : List Claim) : Bool := a.all (b.contains ·) && b.all (a.contains ·)
@@ -66,11 +81,11 @@ def sameSet (a b : List Claim) : Bool := a.all (b.contains ·) && b.all (a.conta
 def member (j : J) (k : String) : Option J := j.get? k
 
 /-- an undefined member anywhere (objects and arrays, every depth); `@context` values and the proof are not looked at -/
-def hasUndefined : Nat → J → Bool
+def hasUndefined (d : String → Bool) : Nat → J → Bool
   | 0, _ => false
   | fuel + 1, .obj kvs => kvs.any fun (k, v) =>
-      k != "@context" && k != "proof" && (!defined k || hasUndefined fuel v)
-  | fuel + 1, .arr l => l.any (hasUndefined fuel)
+      k != "@context" && k != "proof" && (!d k || hasUndefined d fuel v)
+  | fuel + 1, .arr l => l.any (hasUndefined d fuel)
   | _, _ => false
 
 /-- (default validation, strict validation) outcome of verifying `mutated`, a document derived from the signed `orig` -/
@@ -80,8 +95,9 @@ def expected (orig mutated : J) : String × String :=
   | some p =>
     let sameProof := (member orig "proof").map J.render == some (J.render p)
     let sameCtx := (member orig "@context").map J.render == (member mutated "@context").map J.render
-    let ok := sameProof && sameCtx && sameSet (docClaims orig) (docClaims mutated)
+    let d := definedFor mutated
+    let ok := sameProof && sameCtx && sameSet (docClaims d orig) (docClaims d mutated)
     if !ok then ("rej", "rej")
-    else ("acc", if hasUndefined 16 mutated then "rej" else "acc")
+    else ("acc", if hasUndefined d 16 mutated then "rej" else "acc")
 
 end Ldp
